@@ -55,6 +55,8 @@ def make_box(rng, n, center, spread=2.0, kinds=None):
             lb[i], ub[i] = lo, hi
         elif k == "fix":
             lb[i] = ub[i] = lo
+        elif k == "narrow":     # a legal box much narrower than its distance to the origin can be (see spec "shift")
+            lb[i], ub[i] = lo, lo + float(10 ** rng.uniform(-3.5, -2.3))
     return lb, ub, ks
 
 
